@@ -244,11 +244,11 @@ Proof. vm_compute; reflexivity. Qed.
 Lemma code_wf_callers : wf_callers stop_order code_sites = true.
 Proof. vm_compute; reflexivity. Qed.
 
-Lemma code_total_bound : total_bound stop_order code_sites = 16050.
+Lemma code_total_bound : total_bound stop_order code_sites = 16550.
 Proof. vm_compute; reflexivity. Qed.
 
 Lemma stop_completes : forall st, incl st code_sites ->
-  exists t, run_stop stop_order [] st 0 = Done t (rev stop_order) /\ 0 <= t <= 16050.
+  exists t, run_stop stop_order [] st 0 = Done t (rev stop_order) /\ 0 <= t <= 16550.
 Proof.
   intros st Hincl.
   destruct (stop_completes_gen stop_order [] code_sites st 0 code_wf Hincl) as [t [Ht Hb]].
@@ -276,7 +276,7 @@ Proof.
     repeat (destruct Hin as [<-|Hin]; [vm_compute; tauto|]); try contradiction.
 Qed.
 
-Lemma nominal_defined : forall c, exists t, nominal_ms c = Some t /\ 0 <= t <= 16050.
+Lemma nominal_defined : forall c, exists t, nominal_ms c = Some t /\ 0 <= t <= 16550.
 Proof.
   intro c. destruct (stop_completes (sites_of_case c) (sites_of_case_incl c)) as [t [Ht Hb]].
   exists t; unfold nominal_ms; rewrite Ht; split; [reflexivity | exact Hb].
